@@ -1,8 +1,9 @@
 (* MODEL for C10: context::Context (persistent linked list of DataList nodes),
    ThreadLocalContextStorage::Stack ({size_, capacity_, base_[]}), Detach with its unwinding loop,
    Token / Scope life time, trace::GetSpan / SetSpan / Tracer::GetCurrentSpan.
-   Mirrors what the C++ does, including the default-constructed head node that
-   Context(empty iterable) / SetValues(empty iterable) creates (finding F20).
+   Mirrors what the C++ does, including the default-constructed (key-less) head node that
+   Context(empty iterable) / SetValues(empty iterable) creates; since the repair of F20 (4bc3189)
+   GetValue skips such a node.
    Definitions only - no proofs in this file. *)
 From V Require Export Base.Bytes Gen.Consts.
 Local Open Scope nat_scope.
@@ -54,11 +55,14 @@ Fixpoint chain (h : heap) (c : ctx) : list node :=
   end.
 
 (* the test in the loop of GetValue:
-     key.size() == data->key_length_  &&  memcmp(key.data(), data->key_, data->key_length_) == 0 *)
+     data->key_ != nullptr && key.size() == data->key_length_  &&
+     (data->key_length_ == 0 || memcmp(key.data(), data->key_, data->key_length_) == 0) *)
 Definition node_matches (key : bytes) (n : node) : bool :=
   match n_key n with
-  | Some k => if Nat.eqb (length key) (length k) then bytes_eqb (firstn (length k) key) k else false
-  | None => Nat.eqb (length key) 0          (* key_length_ = 0, memcmp over 0 bytes (of a null pointer) *)
+  | Some k => if Nat.eqb (length key) (length k)
+              then Nat.eqb (length k) 0 || bytes_eqb (firstn (length k) key) k
+              else false
+  | None => false                           (* a node without a key holds no binding *)
   end.
 
 Definition get_value (h : heap) (c : ctx) (key : bytes) : value :=
